@@ -352,10 +352,35 @@ ICase build_irq(vf::Stream& s) {
     st[flat::F_cpc] = s.bits(1);
     c.opcode = 0x0000; // nop: the interrupted stream
     c.expansion = 0x0000;
-    uint16_t retw = ctx ? W("retic(CondValue)", {0}) : W("reti(CondValue)", {0});
-    c.pokes.push_back({handler, retw});
-    c.cycles = 2;
-    c.tag = "irq " + std::to_string(line) + " " + std::to_string(ctx) + " " + vf::hex(handler);
+    // handler: either the bare return, or "mov #v, stt0 ; reti/retic <cond>" with a condition that holds on the handler's own
+    // flags v (and may or may not hold on the interrupted stream's flags, which a context restore brings back)
+    if (s.chance(1, 3)) {
+        uint16_t retw = ctx ? W("retic(CondValue)", {0}) : W("reti(CondValue)", {0});
+        c.pokes.push_back({handler, retw});
+        c.cycles = 2;
+        c.tag = "irq " + std::to_string(line) + " " + std::to_string(ctx) + " " + vf::hex(handler);
+        return c;
+    }
+    static const int stt0w = [] {
+        for (size_t i = 0; i < layout::words().size(); ++i)
+            if (layout::words()[i].name == std::string("stt0"))
+                return (int)i;
+        return -1;
+    }();
+    uint16_t v = 0;
+    unsigned cond = 0;
+    for (int attempt = 0; attempt < 64; ++attempt) {
+        v = icase::gen_u16(s);
+        cond = 1 + (unsigned)s.below(11); // eq .. l: the flag conditions
+        if (imodel::cond_pass(layout::write(stt0w, st, v), cond))
+            break;
+        cond = 0;
+    }
+    c.pokes.push_back({handler, W("mov(Imm16,SttMod)", {-1, 0})});
+    c.pokes.push_back({handler + 1, v});
+    c.pokes.push_back({handler + 2, ctx ? W("retic(CondValue)", {(long)cond}) : W("reti(CondValue)", {(long)cond})});
+    c.cycles = 3;
+    c.tag = "irq " + std::to_string(line) + " " + std::to_string(ctx) + " " + vf::hex(handler) + " " + vf::hex(v) + " " + std::to_string(cond);
     return c;
 }
 
@@ -371,9 +396,23 @@ vf::Result check_irq(const ICase& c, const std::vector<std::string>& t) {
     }
     State base = c.st;
     base[flat::F_pc] = c.st[flat::F_pc] + 1; // the interrupted stream continues after the nop
+    bool flagged = t.size() >= 6; // the handler rewrote stt0 and returned conditionally
+    unsigned cond = flagged ? (unsigned)std::stoul(t[5]) : 0;
+    if (flagged && !ctx) { // without a context switch the handler's flags stay
+        static const int stt0w = [] {
+            for (size_t i = 0; i < layout::words().size(); ++i)
+                if (layout::words()[i].name == std::string("stt0"))
+                    return (int)i;
+            return -1;
+        }();
+        base = layout::write(stt0w, base, (uint16_t)vf::unhex(t[4]));
+    }
     State want = ctx ? after_context_roundtrip(base) : base;
     want[flat::F_ie] = 1;
-    std::string where = std::string("interrupt line ") + (line < 3 ? std::to_string(line) : "vectored") + (ctx ? " with context switch + retic" : " + reti");
+    std::string where = std::string("interrupt line ") + (line < 3 ? std::to_string(line) : "vectored") + (ctx ? " with context switch + retic" : " + reti") +
+                        (flagged ? (cond ? " (handler sets flags, conditional return)" : " (handler sets flags)") : "");
+    if (flagged && ctx && cond && !imodel::cond_pass(c.st, cond))
+        vf::klass("conditional retic whose condition fails on the interrupted stream's flags");
     if (!(r.after == want)) {
         std::string d = flat::diff(r.after, want);
         return vf::Result::fail(std::string("C08:irq:") + (ctx ? "ctx:" : "plain:") + d.substr(0, d.find(':')),
